@@ -189,6 +189,17 @@ class TraceVisitor(Visitor):
         address = self.address[:]
         objective = self.objective
 
+        if loop.iterations <= 0:
+            # The body never runs: skip every trace that starts inside it,
+            # otherwise the enclosing block would wait for them forever.
+            while self.objective and self.objective[: len(address)] == address:
+                self.index += 1
+                if self.index == len(self.traces):
+                    self.objective = None
+                else:
+                    self.objective = self.traces[self.index].start
+            return
+
         # loop over the classical parts
         for n in range(loop.iterations):
             # Restore the walk status at the start of every loop
